@@ -6,7 +6,7 @@ REPO = os.environ.get('UV_REPO', '/repo')
 BUILD = os.path.join(ROOT, 'build')
 COQ = os.path.join(ROOT, 'coq')
 NCPU = os.cpu_count() or 8
-CXX = ['g++', '-std=c++20', '-O1', '-w', '-I' + os.path.join(REPO, 'include'), '-I' + os.path.join(ROOT, 'harness'),
+CXX = ['g++', '-std=c++20', '-O1', '-w', '-I' + os.path.join(REPO, 'include'), '-I' + REPO, '-I' + os.path.join(ROOT, 'harness'),
        '-DUNIVERSAL_VERIF_HOOKS=1']
 
 OPS = {}
